@@ -489,8 +489,15 @@ def setup():
         ok, msg = run_extract(prop)
         if not ok:
             print(msg)
-    rc, out, err = sh(['lake', 'build'], cwd=LEAN)
+    targets = sorted({m for c in CHECKS.values() for m in c['lean_modules']}) + ['driver']
+    rc, out, err = sh(['lake', 'build'] + targets, cwd=LEAN)
     print((out + err)[-3000:])
+    races = any(c.get('race') for c in CHECKS.values())
+    if races:
+        ok, msg = build_tools(race=True)
+        if not ok:
+            print(msg)
+            return 1
     print('setup done in %.0fs' % (time.time() - t))
     return 0 if rc == 0 else 1
 
